@@ -124,13 +124,28 @@ def run(ctx: core.Ctx):
     expect = sum(2 ** len(c["removable"]) for c in cases)
     if len(emitted) != expect:
         raise MachineryError(f"expected {expect} configurations, got {len(emitted)}")
-    for rec in emitted:
+    live, live_rev = {}, {}
+    # second pass in the opposite order (most operators removed first): a component that remembers the configuration of its FIRST
+    # use shows only if that first use was an incomplete one
+    by_removed = sorted(emitted, key=lambda r_: (r_["cid"], -sum(r_["mask"]), r_["mask"]))
+    for rec, modes in [(r_, (False, True, "long-lived")) for r_ in emitted] + [(r_, ("long-lived-rev",)) for r_ in by_removed]:
         case = cases[rec["cid"]]
         E = copy.deepcopy(case["engine"])
         removed = [r for r, m in zip(case["removable"], rec["mask"]) if m]
-        for shared in (False, True):
-            e = build_engine(fl, case["engine"])
-            if shared:
+        for shared in modes:
+            if shared in ("long-lived", "long-lived-rev"):
+                pool_ = live if shared == "long-lived" else live_rev
+                # ONE engine per base case lives through all its configurations: before each, every operator / defuzzifier is
+                # re-assigned from a freshly built donor (reconfiguration in place, rules not re-loaded), then some are removed
+                e = pool_.setdefault(rec["cid"], build_engine(fl, case["engine"]))
+                donor = build_engine(fl, case["engine"])
+                for comp, dcomp, fields in [(b_, d_, ("conjunction", "disjunction", "implication")) for b_, d_ in zip(e.rule_blocks, donor.rule_blocks)] + \
+                                           [(v_, d_, ("aggregation", "defuzzifier")) for v_, d_ in zip(e.output_variables, donor.output_variables)]:
+                    for f_ in fields:
+                        setattr(comp, f_, getattr(dcomp, f_))
+            else:
+                e = build_engine(fl, case["engine"])
+            if shared is True:
                 # components configured the way Engine.configure does it: ONE operator / defuzzifier object serves every
                 # block / output that uses this class with these parameters
                 pool = {}
